@@ -144,7 +144,50 @@ def _factory_one(c):
 
 
 replay_factory = common.per_case(_factory_one, 'factory')
-REPLAYERS = {'grid': replay_grids, 'factory': replay_factory}
+
+
+_HIST_GRIDS = [
+    dict(M=3, L=4, I=10, J=5, spacing='gauss', impl='real', mult=1),
+    dict(M=3, L=4, I=10, J=5, spacing='equiangular', impl='fast', mult=2),
+]
+
+
+def _history_group(g):
+  """g: {'grid': index, 'radius': r, 'seqs': [[op, ...], ...]}; all sequences run on ONE Grid object."""
+  np, jax, jnp = spectral.np_jax()
+  out = []
+  cfg = _HIST_GRIDS[g['grid']]
+  radius = g['radius']
+  rs = np.random.RandomState(5)
+
+  def ops_of(grid):
+    mask = np.asarray(grid.mask)
+    x = jnp.asarray(rs.__class__(5).randn(*grid.modal_shape) * mask)
+    z = grid.to_nodal(x)
+    return {
+        'to_nodal': lambda: grid.to_nodal(x), 'to_modal': lambda: grid.to_modal(z),
+        'integrate': lambda: grid.integrate(z), 'quadrature_weights': lambda: grid.quadrature_weights,
+        'laplacian': lambda: grid.laplacian(x), 'inverse_laplacian': lambda: grid.inverse_laplacian(x),
+        'cos_lat_d_dlat': lambda: grid.cos_lat_d_dlat(x), 'clip': lambda: grid.clip_wavenumbers(x),
+        'd_dlon': lambda: grid.d_dlon(x)}
+  fresh = {}
+  for op in ops_of(spectral.make_grid(cfg, radius=radius)):
+    fresh[op] = np.asarray(ops_of(spectral.make_grid(cfg, radius=radius))[op]())
+  grid = spectral.make_grid(cfg, radius=radius)
+  ops = ops_of(grid)
+  for seq in g['seqs']:
+    for k, op in enumerate(seq):
+      got = np.asarray(ops[op]())
+      if not np.array_equal(got, fresh[op]):
+        out.append({'case': {'grid': cfg, 'radius': radius, 'ops': seq}, 'sig': f'history:{op}',
+                    'detail': f'{op} after {seq[:k]} (and earlier sequences on the same Grid object) differs from '
+                              f'its value on a fresh Grid by {np.abs(got - fresh[op]).max():.3e}'})
+        return out
+  return out
+
+
+replay_history = common.per_case(_history_group, 'history')
+REPLAYERS = {'grid': replay_grids, 'factory': replay_factory, 'history': replay_history}
 
 
 def replay(ctx, kind, cases):
@@ -179,7 +222,12 @@ def run(ctx):
   for c in fac:
     c['transform'] = c['name'] in (('T21', 'TL31') if q else ('T21', 'TL31', 'T31', 'T42', 'TL47', 'TL63'))
   res += replay_factory(fac)
-  ctx.replayed += len(cases) + len(fac)
+  rh = ctx.tlc('GridHistory', 'GridHistory.cfg')
+  seqs = [c['ops'] for c in rh.cases]
+  groups = [{'grid': gi, 'radius': rad, 'seqs': seqs} for gi in (0, 1) for rad in (2.0, 0.5)]
+  res += replay_history(groups)
+  ctx.replayed += len(cases) + len(fac) + len(seqs) * len(groups)
+  ctx.sample({'kind': 'history', 'ops': seqs[len(seqs) // 2]})
   nlab = sum(len(c['labels']) * len(c['variants']) for c in cases)
   ctx.comparisons += nlab * 4
   ctx.notes['labels_replayed'] = nlab
@@ -188,7 +236,7 @@ def run(ctx):
     ctx.distinct.add((c['M'], c['L'], c['I'], c['J'], c['spacing'], c['impl'], c['mult']))
   for m in res:
     cc = dict(m['case'])
-    ctx.mismatch(m['sig'].split(':')[0] if m['sig'].startswith('factory') else 'grid', cc, m['sig'], m['detail'])
+    ctx.mismatch(m['sig'].split(':')[0] if m['sig'].split(':')[0] in ('factory', 'history') else 'grid', cc, m['sig'], m['detail'])
   s = cases[len(cases) // 2]
   ctx.sample({k: s[k] for k in ('M', 'L', 'I', 'J', 'spacing', 'impl', 'mult', 'modal_shape', 'nodal_shape')}
              | {'labels': s['labels'][:4]})
